@@ -9,6 +9,7 @@ package main
 
 import (
 	"bytes"
+	"errors"
 	"fmt"
 	"math"
 	"math/rand/v2"
@@ -124,11 +125,110 @@ func equalModuloOrder(a, b []byte) bool {
 // the round-trip oracle
 
 type rtInfo struct {
-	label   string // what is being round-tripped (for messages)
-	typeSig string // normalized class of the type for violation signatures
-	omit    bool
-	eq      bool // Go equality is meaningful
-	format  bool
+	label        string // what is being round-tripped (for messages)
+	family       string // normalized family of the workload for violation signatures ("generated", "alt-time", …)
+	omit         bool
+	eq           bool // Go equality is meaningful
+	format       bool
+	noFixedPoint bool                        // a value outside the round-trip domain of its layout: acceptance and equality only
+	repr         func(os *optSet, b1 []byte) // meaning of the documented representation (repr.go), fixed boxes only
+}
+
+// jsonDiff locates the first difference of two JSON texts and names its class (normalized: kinds
+// and structure only).  field is the name of the top-level member the difference lies in.
+func jsonDiff(b1, b2 []byte) (field, class string) {
+	n1, n2 := ref.Parse(b1, ref.Opts{AllowDup: true}), ref.Parse(b2, ref.Opts{AllowDup: true})
+	if n1 == nil || n2 == nil {
+		return "", "invalid-json"
+	}
+	kindName := [...]string{"null", "bool", "number", "string", "array", "object"}
+	var walk func(a, b *ref.Node, depth int) string
+	walk = func(a, b *ref.Node, depth int) string {
+		if a.Kind != b.Kind {
+			return kindName[a.Kind] + "-vs-" + kindName[b.Kind]
+		}
+		switch a.Kind {
+		case ref.Bool:
+			if a.B != b.B {
+				return "bool-value"
+			}
+		case ref.Number:
+			if a.Raw != b.Raw {
+				return "number-spelling"
+			}
+		case ref.String:
+			if a.S != b.S {
+				return "string-content"
+			}
+			if a.Raw != b.Raw {
+				return "string-escaping"
+			}
+		case ref.Array:
+			if len(a.Elems) != len(b.Elems) {
+				return "array-length"
+			}
+			for i := range a.Elems {
+				if c := walk(a.Elems[i], b.Elems[i], depth+1); c != "" {
+					return c
+				}
+			}
+		case ref.Object:
+			if len(a.Members) != len(b.Members) {
+				return "member-count"
+			}
+			byName := map[string]*ref.Node{}
+			for i := len(b.Members) - 1; i >= 0; i-- {
+				byName[b.Members[i].Name] = b.Members[i].Value
+			}
+			for _, m := range a.Members {
+				o, ok := byName[m.Name]
+				if !ok {
+					return "member-names"
+				}
+				if c := walk(m.Value, o, depth+1); c != "" {
+					if depth == 0 {
+						field = m.Name
+					}
+					return c
+				}
+			}
+			for i := range a.Members {
+				if a.Members[i].RawName != b.Members[i].RawName {
+					return "member-order-or-name-spelling"
+				}
+			}
+		}
+		return ""
+	}
+	class = walk(n1, n2, 0)
+	if class == "" {
+		class = "whitespace"
+	}
+	return field, class
+}
+
+// errClass is the normalized class of an error returned by the library.
+func errClass(err error) string {
+	var sem *json.SemanticError
+	var syn *jsontext.SyntacticError
+	switch {
+	case errors.As(err, &sem):
+		c := "SemanticError"
+		if sem.GoType != nil {
+			switch {
+			case sem.GoType == tTime:
+				c += "/time"
+			case sem.GoType == tDuration:
+				c += "/duration"
+			default:
+				c += "/" + sem.GoType.Kind().String()
+			}
+		}
+		return c
+	case errors.As(err, &syn):
+		return "SyntacticError"
+	}
+	return "other-error"
 }
 
 func roundTrip(w *run.W, v reflect.Value, os *optSet, in rtInfo) {
@@ -138,55 +238,81 @@ func roundTrip(w *run.W, v reflect.Value, os *optSet, in rtInfo) {
 	if in.format {
 		opts = append(append([]json.Options(nil), opts...), formatTagOpt)
 	}
-	sig := func(clause string) map[string]string {
-		return map[string]string{"options": os.name, "clause": clause, "type": in.typeSig}
+	// signatures are normalized: clause, option set, workload family, root-cause class; for the
+	// fixed boxes of the alternative-representation sweeps also the box field (= the format name)
+	sig := func(clause, cause, field string) map[string]string {
+		m := map[string]string{"options": os.name, "clause": clause, "family": in.family, "cause": cause}
+		if field != "" && in.family != "generated" {
+			m["field"] = field
+		}
+		return m
 	}
 	p := reflect.New(t)
 	p.Elem().Set(v)
 	b1, err := json.Marshal(p.Interface(), opts...)
 	if err != nil {
-		w.Violate("marshal-refused", sig("marshal"), "%s: Marshal(%v) under %s failed: %v\n value: %s", in.label, t, os.name, err, show(v))
+		w.Violate("marshal-refused", sig("marshal", errClass(err), ""), "%s: Marshal(%v) under %s failed: %v\n value: %s", in.label, t, os.name, err, show(v))
 		return
+	}
+	if in.repr != nil {
+		in.repr(os, b1)
 	}
 	q := reflect.New(t)
 	if err := json.Unmarshal(b1, q.Interface(), opts...); err != nil {
-		w.Violate("unmarshal-refused", sig("unmarshal"), "%s: Unmarshal of Marshal output under %s failed: %v\n type: %v\n output: %s", in.label, os.name, err, t, run.Trunc(string(b1), 1200))
+		w.Violate("unmarshal-refused", sig("unmarshal", errClass(err), ""), "%s: Unmarshal of Marshal output under %s failed: %v\n type: %v\n output: %s", in.label, os.name, err, t, run.Trunc(string(b1), 1200))
 		return
 	}
-	b2, err := json.Marshal(q.Interface(), opts...)
-	if err != nil {
-		w.Violate("marshal-refused", sig("remarshal"), "%s: Marshal of the decoded value under %s failed: %v\n type: %v\n first output: %s", in.label, os.name, err, t, run.Trunc(string(b1), 1200))
-		return
-	}
-	same := bytes.Equal(b1, b2)
-	if !same && !os.deterministic && equalModuloOrder(b1, b2) {
-		same = true
-		w.Count("equal_modulo_member_order", 1)
-	}
-	if !same {
-		if !in.omit {
-			w.Violate("bytes-differ", sig("fixed-point"), "%s under %s: marshaling the decoded value gives different bytes\n type: %v\n b1: %s\n b2: %s", in.label, os.name, t, run.Trunc(string(b1), 1200), run.Trunc(string(b2), 1200))
+	if in.noFixedPoint {
+		w.Count("outside_layout_domain_acceptance_and_equality_only", 1)
+	} else {
+		b2, err := json.Marshal(q.Interface(), opts...)
+		if err != nil {
+			w.Violate("marshal-refused", sig("remarshal", errClass(err), ""), "%s: Marshal of the decoded value under %s failed: %v\n type: %v\n first output: %s", in.label, os.name, err, t, run.Trunc(string(b1), 1200))
 			return
 		}
-		// types with omit options: a fixed point after one more round
-		r := reflect.New(t)
-		if err := json.Unmarshal(b2, r.Interface(), opts...); err != nil {
-			w.Violate("unmarshal-refused", sig("second-round"), "%s under %s: second-round Unmarshal failed: %v\n b2: %s", in.label, os.name, err, run.Trunc(string(b2), 1200))
-			return
+		same := bytes.Equal(b1, b2)
+		if !same && !os.deterministic && equalModuloOrder(b1, b2) {
+			same = true
+			w.Count("equal_modulo_member_order", 1)
 		}
-		b3, err := json.Marshal(r.Interface(), opts...)
-		if err != nil || !(bytes.Equal(b2, b3) || (!os.deterministic && equalModuloOrder(b2, b3))) {
-			w.Violate("no-fixed-point", sig("second-round"), "%s under %s: no fixed point after one more round (%v)\n type: %v\n b1: %s\n b2: %s\n b3: %s", in.label, os.name, err, t,
-				run.Trunc(string(b1), 800), run.Trunc(string(b2), 800), run.Trunc(string(b3), 800))
-			return
+		if !same {
+			if !in.omit {
+				field, class := jsonDiff(b1, b2)
+				w.Violate("bytes-differ", sig("fixed-point", class, field), "%s under %s: marshaling the decoded value gives different bytes\n type: %v\n b1: %s\n b2: %s", in.label, os.name, t, run.Trunc(string(b1), 1200), run.Trunc(string(b2), 1200))
+				return
+			}
+			// types with omit options: a fixed point after one more round
+			r := reflect.New(t)
+			if err := json.Unmarshal(b2, r.Interface(), opts...); err != nil {
+				w.Violate("unmarshal-refused", sig("second-round", errClass(err), ""), "%s under %s: second-round Unmarshal failed: %v\n b2: %s", in.label, os.name, err, run.Trunc(string(b2), 1200))
+				return
+			}
+			b3, err := json.Marshal(r.Interface(), opts...)
+			if err != nil || !(bytes.Equal(b2, b3) || (!os.deterministic && equalModuloOrder(b2, b3))) {
+				field, class := "", "marshal-error"
+				if err == nil {
+					field, class = jsonDiff(b2, b3)
+				}
+				w.Violate("no-fixed-point", sig("second-round", class, field), "%s under %s: no fixed point after one more round (%v)\n type: %v\n b1: %s\n b2: %s\n b3: %s", in.label, os.name, err, t,
+					run.Trunc(string(b1), 800), run.Trunc(string(b2), 800), run.Trunc(string(b3), 800))
+				return
+			}
+			w.Count("second_round_fixed_points", 1)
 		}
-		w.Count("second_round_fixed_points", 1)
 	}
 	w.Count("round_trips", 1)
 	w.Count("optset_"+os.name, 1)
 	if in.eq {
-		if d := equalRT(v, q.Elem(), &eqCtx{nilAsNull: os.nilAsNull}, ""); d != "" {
-			w.Violate("value-differs", sig("equality"), "%s under %s: decoded value differs at %s\n type: %v\n json: %s", in.label, os.name, d, t, run.Trunc(string(b1), 1200))
+		if d := equalRT(v, q.Elem(), &eqCtx{nilAsNull: os.nilAsNull}, fieldFmt{}, ""); d != nil {
+			if d.cause == "harness" {
+				w.Broken("%s: %s", in.label, d)
+				return
+			}
+			field := ""
+			if f := strings.SplitN(strings.TrimPrefix(d.path, "."), ".", 2)[0]; t.Kind() == reflect.Struct {
+				field = strings.TrimRight(strings.SplitN(f, "[", 2)[0], "*")
+			}
+			w.Violate("value-differs", sig("equality", d.cause, field), "%s under %s: decoded value differs at %s\n type: %v\n json: %s", in.label, os.name, d, t, run.Trunc(string(b1), 1200))
 			return
 		}
 		w.Count("equality_checked", 1)
@@ -212,8 +338,7 @@ func checkGenerated(w *run.W, a *genArgs) {
 	t := g.typ(0)
 	omit := f.omit || os.omit
 	in := rtInfo{label: "generated", omit: omit, format: f.formatTag || r.IntN(8) == 0,
-		eq: !omit && !f.lossyTime && !(f.iface && os.stringify)}
-	in.typeSig = typeClass(f)
+		family: "generated", eq: !omit && !(f.iface && os.stringify)}
 	for k := range f.kinds {
 		w.Count("kind_"+k, 1)
 	}
@@ -241,20 +366,6 @@ func checkGenerated(w *run.W, a *genArgs) {
 	}
 }
 
-func typeClass(f *features) string {
-	var ks []string
-	for k := range f.kinds {
-		if !strings.HasPrefix(k, "mapkey-") {
-			ks = append(ks, k)
-		}
-	}
-	sort.Strings(ks)
-	if len(ks) > 4 {
-		return "mixed"
-	}
-	return strings.Join(ks, "+")
-}
-
 // ---------------------------------------------------------------------------------
 // float32 sweep: every bit pattern through Marshal/Unmarshal
 
@@ -275,26 +386,26 @@ func sweep32(w *run.W, a *sweepArgs) {
 		}
 		b1, err := json.Marshal(vals)
 		if err != nil {
-			w.Violate("marshal-refused", map[string]string{"options": os.name, "clause": "marshal", "type": "float32-sweep"}, "Marshal([]float32) failed: %v", err)
+			w.Violate("marshal-refused", map[string]string{"options": os.name, "clause": "marshal", "family": "float32-sweep", "cause": errClass(err)}, "Marshal([]float32) failed: %v", err)
 			vals = vals[:0]
 			return
 		}
 		var got []float32
 		if err := json.Unmarshal(b1, &got); err != nil || len(got) != len(vals) {
-			w.Violate("unmarshal-refused", map[string]string{"options": os.name, "clause": "unmarshal", "type": "float32-sweep"}, "Unmarshal of %d formatted float32: %v (len %d)", len(vals), err, len(got))
+			w.Violate("unmarshal-refused", map[string]string{"options": os.name, "clause": "unmarshal", "family": "float32-sweep", "cause": "error-or-length"}, "Unmarshal of %d formatted float32: %v (len %d)", len(vals), err, len(got))
 			vals = vals[:0]
 			return
 		}
 		for i, g := range got {
 			if math.Float32bits(g) != math.Float32bits(vals[i]) {
 				one, _ := json.Marshal(vals[i])
-				w.Violate("value-differs", map[string]string{"options": os.name, "clause": "equality", "type": "float32-sweep"},
+				w.Violate("value-differs", map[string]string{"options": os.name, "clause": "equality", "family": "float32-sweep", "cause": "float32-bits"},
 					"float32 bits %#x marshals as %s and decodes to bits %#x", math.Float32bits(vals[i]), one, math.Float32bits(g))
 			}
 		}
 		b2, err := json.Marshal(got)
 		if err != nil || !bytes.Equal(b1, b2) {
-			w.Violate("bytes-differ", map[string]string{"options": os.name, "clause": "fixed-point", "type": "float32-sweep"}, "[]float32 block starting at bits %#x: second Marshal differs (%v)", math.Float32bits(vals[0]), err)
+			w.Violate("bytes-differ", map[string]string{"options": os.name, "clause": "fixed-point", "family": "float32-sweep", "cause": "number-spelling"}, "[]float32 block starting at bits %#x: second Marshal differs (%v)", math.Float32bits(vals[0]), err)
 		}
 		checked += int64(len(vals))
 		vals = vals[:0]
@@ -333,9 +444,11 @@ var M = &run.Monitor{
 		"dedicated sweeps for every alternative representation (string-quoted numbers, map keys of each numeric kind, 7 byte formats on []byte and [N]byte, 18 time layouts incl. unix*, 6 duration formats) over boundary-dense samples; " +
 		"float32: all 2^32 bit patterns through Marshal/Unmarshal in the thorough tier (every 509th pattern in quick). distinct = type skeleton x option set",
 	Assumptions: []string{
-		"equality relation: nil and empty slices/maps identified, pointer chains ending in nil identified, floats by bits, times by instant and zone offset (instant only for unix* formats, which do not carry a zone)",
-		"equality is not demanded where the property says it is not meaningful: omitzero/omitempty in play, lossy time layouts, numbers inside `any` under StringifyNumbers (they come back as strings); the byte fixed point is still demanded",
+		"equality relation: nil and empty slices/maps identified; a pointer whose target is written as JSON null (nil pointer, nil interface, nil slice/map under FormatNil*AsNull or the v1 defaults) is identified with the nil pointer, because null decodes to the nil pointer; floats by bits; times by instant and zone offset (instant only for unix* formats, which do not carry a zone)",
+		"a time under a layout that carries only part of the value must decode to what the layout carries: time.Parse(layout, t.Format(layout)) computed with the toolchain's time package; the byte fixed point is demanded for every value whose rendering the layout reproduces (RFC850 outside 1969..2068 does not: weekday of the full year, year modulo 100) - those values are moved into the layout's domain, and the original is still checked for acceptance and equality",
+		"equality is not demanded where the property says it is not meaningful: omitzero/omitempty in play, numbers inside `any` under StringifyNumbers (they come back as strings); the byte fixed point is still demanded",
 		"without Deterministic the two outputs are compared modulo object member order",
+		"sub-oracle representation (dedicated sweeps only): the first output must denote the value in the documented representation (unix*/sec/milli/micro/nano as exact decimals via math/big, layouts via time.Format, units via Duration.String, ISO 8601 via an independent evaluator, RFC 4648 via the toolchain packages, integers in decimal) - a round trip alone cannot see formatter and parser errors that cancel",
 	},
 	Floors: func(c map[string]int64, tier string) []string {
 		var u []string
@@ -361,7 +474,9 @@ var M = &run.Monitor{
 		need("alt_float_values", 5000)
 		need("alt_duration_values", 2000)
 		need("alt_time_values", 2000)
-		need("alt_bytes_values", 500)
+		need("alt_bytes_values", 70)
+		need("representation_checked", 100000)
+		need("outside_layout_domain_acceptance_and_equality_only", 50)
 		if tier == "thorough" {
 			need("f32_sweep_round_trips", 4278190080)
 		} else {
@@ -385,7 +500,7 @@ func generate(w *run.W) {
 	ci := 0
 	mine := func() bool { ci++; return w.Mine(ci) }
 	// (1) generated universe
-	n := w.Pick(60000, 900000)
+	n := w.Pick(160000, 900000)
 	r := w.Rand("gen")
 	for i := 0; i < n; i++ {
 		seed, opt := r.Uint64(), i%len(optSets)
